@@ -14,6 +14,22 @@ import sys
 import traceback
 
 FIXED_POINT = ("fix_paragraphs", "fix_nesting", "remove_breaking_returns")
+# treecleaner.py:87-146 at the pinned revision (the same list is CleanerMethods in CleanerTrace.tla)
+DOCUMENTED_ORDER = [
+    "clean_vlist", "mark_infoboxes", "remove_edit_links", "remove_empty_text_nodes", "remove_invisible_links",
+    "clean_section_captions", "remove_childless_nodes", "remove_no_print_nodes", "remove_list_only_paragraphs",
+    "remove_invalid_file_types", "fix_paragraphs", "simplify_block_nodes", "remove_absolute_positioned_node",
+    "remove_scroll_elements", "gallery_fix", "fix_region_list_tables", "remove_train_templates", "fix_nesting",
+    "remove_childless_nodes", "unnest_ending_cell_content", "remove_critical_tables", "remove_textless_styles",
+    "remove_broken_children", "fix_table_colspans", "remove_empty_training_table_rows", "split_table_lists",
+    "transform_single_col_tables", "split_table_to_columns", "linearize_wide_nested_tables", "remove_breaking_returns",
+    "remove_empty_ref_lists", "swap_nodes", "remove_big_sections_from_cells", "transform_nested_tables",
+    "split_big_table_cells", "limit_image_caption_size", "remove_dup_links_in_refs", "fix_item_lists", "fix_sub_sup",
+    "remove_leading_para_in_list", "remove_childless_nodes", "remove_new_lines", "remove_breaking_returns",
+    "remove_see_also", "build_def_lists", "restrict_children", "fix_reference_nodes", "remove_broken_children",
+    "fix_math_dir", "fix_nesting", "fix_preformatted", "fix_list_nesting", "handle_only_in_print",
+    "remove_empty_text_nodes", "remove_childless_nodes", "remove_breaking_returns", "remove_empty_sections",
+    "mark_short_paragraph"]
 CALL_CAP = 20_000_000         # deterministic cap per pass: CALL_CAP + CALL_CAP_PER_NODE * nodes profiled calls
 CALL_CAP_PER_NODE = 100_000   # (normal: < 100 calls per node; fix_nesting's deepcopies: 2*10^4 per node, 1.9*10^6 in all, observed maxima over 23 000 documents)
 _TRIPPED = set()              # passes that exceeded the budget in this process: later documents use a
@@ -167,9 +183,13 @@ def run_pass(tc, name, tree, cap=CALL_CAP):
         status, errkey = "budget", "pass=%s %s" % (name, e)
     except RecursionError:
         status, errkey = "raised", "pass=%s exc=RecursionError" % name
+    except MemoryError:
+        status, errkey = "budget", "pass=%s memory budget" % name
     except Exception as e:                                           # noqa: BLE001
         status = "raised"
-        errkey = "pass=%s exc=%s at=%s" % (name, type(e).__name__, _innermost_mwlib_frame(e.__traceback__))
+        m = re.search(r"has no attribute '(\w+)'", str(e)) if isinstance(e, AttributeError) else None
+        errkey = "pass=%s exc=%s%s at=%s" % (name, type(e).__name__, "(%s)" % m.group(1) if m else "",
+                                             _innermost_mwlib_frame(e.__traceback__))
     finally:
         signal.setitimer(signal.ITIMER_REAL, 0)
         signal.signal(signal.SIGALRM, old)
@@ -197,7 +217,7 @@ def record(raw, lang="en", title="Verif", doc_id=0, lossless=False):
     from mwlib.parser.refine.uparser import parse_string
     from mwlib.parser.treecleaner import TreeCleaner
 
-    trace = {"id": doc_id, "lossless": bool(lossless), "snaps": [], "raw": raw, "lang": lang,
+    trace = {"id": doc_id, "lossless": bool(lossless), "truncated": False, "snaps": [], "raw": raw, "lang": lang,
              "calls": {}, "fired": [], "changed": [], "parse_error": ""}
     def on_alarm(signum, frame):
         raise Budget("parse watchdog")
@@ -218,16 +238,27 @@ def record(raw, lang="en", title="Verif", doc_id=0, lossless=False):
     snap.update({"pass": "build", "status": "ok", "stable": True, "errkey": "", "same": False})
     trace["snaps"].append(snap)
     tc = TreeCleaner(tree, save_reports=True)
+    trace["order"] = list(TreeCleaner.cleaner_methods)
     for name in TreeCleaner.cleaner_methods:
         nrep = len(tc.get_reports())
         cap = CALL_CAP + CALL_CAP_PER_NODE * prev["n"]
-        status, errkey, calls = run_pass(tc, name, tree, cap=cap // 200 if name in _TRIPPED else cap)
-        if status == "budget":
-            _TRIPPED.add(name)
-        stable, why = True, ""
-        if name in FIXED_POINT and status == "ok":
-            stable, why = is_stable(name, tree)
-        cur = project(tree)
+        try:
+            status, errkey, calls = run_pass(tc, name, tree, cap=cap // 200 if name in _TRIPPED else cap)
+            if status == "budget":
+                _TRIPPED.add(name)
+            stable, why = True, ""
+            if name in FIXED_POINT and status == "ok":
+                stable, why = is_stable(name, tree)
+            cur = project(tree)
+        except MemoryError:
+            # the pass (or what it left behind) exhausted the worker's address space: the trace ends
+            # here with a budget event; nothing after it can be observed
+            import gc
+            gc.collect()
+            trace["snaps"].append({"pass": name, "status": "budget", "stable": True, "same": True,
+                                   "errkey": "pass=%s memory budget" % name})
+            trace["truncated"] = True
+            break
         same = cur == prev
         snap = {"pass": name, "status": status, "stable": bool(stable), "errkey": errkey or why, "same": same}
         if not same:
@@ -243,7 +274,8 @@ def record(raw, lang="en", title="Verif", doc_id=0, lossless=False):
 
 
 def for_tlc(trace):
-    return {"id": trace["id"], "lossless": trace["lossless"], "snaps": trace["snaps"]}
+    return {"id": trace["id"], "lossless": trace["lossless"], "truncated": bool(trace.get("truncated")),
+            "order": trace.get("order") or DOCUMENTED_ORDER, "snaps": trace["snaps"]}
 
 
 def write_batch(traces, path):
@@ -397,29 +429,55 @@ def generate(ctx, scale=1.0, profile="all"):
     return inputs, gen_stats
 
 
+MEM_LIMIT = 4 << 30            # address-space limit of a worker: a runaway loop gets MemoryError, not the OOM killer
+
+
+def limit_memory():
+    import resource
+    soft, hard = resource.getrlimit(resource.RLIMIT_AS)
+    if soft == resource.RLIM_INFINITY or soft > MEM_LIMIT:
+        resource.setrlimit(resource.RLIMIT_AS, (MEM_LIMIT, hard))
+
+
+def run_pool(ctx, fn, jobs):
+    """map fn over jobs in forked worker processes; a worker that dies (killed, interpreter
+    crash) is a machinery failure, never a silent hang"""
+    from concurrent.futures import ProcessPoolExecutor
+    from concurrent.futures.process import BrokenProcessPool
+    res = []
+    try:
+        with ProcessPoolExecutor(max_workers=ctx.ncpu, mp_context=multiprocessing.get_context("fork"),
+                                 initializer=limit_memory) as ex:
+            for r in ex.map(fn, jobs):
+                res.append(r)
+    except BrokenProcessPool:
+        ctx.machinery("a worker process died while executing %s (killed or interpreter crash)" % fn.__name__)
+    return res
+
+
 def _record_worker(chunk):
     import logging
     logging.disable(logging.CRITICAL)           # advtree logs every unknown tag
     out = []
     for inp in chunk:
-        tr = record(inp["raw"], inp["lang"], doc_id=inp["id"], lossless=inp["lossless"])
+        try:
+            tr = record(inp["raw"], inp["lang"], doc_id=inp["id"], lossless=inp["lossless"])
+        except MemoryError:
+            import gc
+            gc.collect()
+            tr = {"id": inp["id"], "lossless": False, "truncated": True, "snaps": [], "raw": inp["raw"], "lang": inp["lang"],
+                  "calls": {}, "fired": [], "changed": [], "parse_error": "MemoryError outside a pass"}
         tr["kind"] = inp["kind"]
         out.append(tr)
     return out
 
 
 def record_all(ctx, inputs):
-    import io
-    pool = multiprocessing.get_context("fork").Pool(ctx.ncpu)
     traces = []
-    try:
-        order = list(inputs)
-        random.Random(ctx.seed).shuffle(order)
-        for res in pool.imap_unordered(_record_worker, [c for c in chunks(order, ctx.ncpu * 6) if c]):
-            traces.extend(res)
-    finally:
-        pool.close()
-        pool.join()
+    order = list(inputs)
+    random.Random(ctx.seed).shuffle(order)
+    for res in run_pool(ctx, _record_worker, [c for c in chunks(order, ctx.ncpu * 6) if c]):
+        traces.extend(res)
     traces.sort(key=lambda t: t["id"])
     return traces
 
@@ -434,8 +492,26 @@ def known_keys(prop):
     return [e["key"] for e in ents if e.get("property") == prop and e.get("status") == "open"]
 
 
-def known_raised(prop="C06"):
-    return [k for k in known_keys(prop) if k.startswith("pass=") and " exc=" in k]
+def known_entries(prop):
+    path = os.path.join(VERIF, "known_findings.json")
+    try:
+        with open(path) as f:
+            ents = json.load(f).get("findings", [])
+    except (OSError, ValueError):
+        return []
+    return [e for e in ents if e.get("property") == prop and e.get("status") == "open"]
+
+
+def known_raised(prop, traces):
+    """the error keys occurring in this batch that a recorded finding covers (exact or prefix)"""
+    ents = [e for e in known_entries(prop) if e["key"].startswith("pass=") and " exc=" in e["key"]]
+    out = set()
+    for t in traces:
+        for s in t["snaps"]:
+            k = s.get("errkey") or ""
+            if s["status"] == "raised" and any(k.startswith(e["key"]) if e.get("match") == "prefix" else k == e["key"] for e in ents):
+                out.add(k)
+    return sorted(out)
 
 
 _STEP = re.compile(r"^clean after=(\w+) clause=(C0\d [a-z-]+) ")
@@ -475,7 +551,7 @@ def validate(ctx, traces, prop, name="batch"):
     val.traces = len(usable)
     if not usable:
         return val
-    known = known_raised("C06") if prop == "C06" else []
+    known = known_raised("C06", usable) if prop == "C06" else []
     cfg = TRACE_CFG % dict(c05=str(prop == "C05").upper(), c06=str(prop == "C06").upper(), c07=str(prop == "C07").upper(),
                            known=", ".join('"%s"' % k.replace('"', "'") for k in known),
                            steps=", ".join('"%s"' % k for k in known_steps(prop)))
